@@ -180,6 +180,9 @@ def cells(tier, seed):
         for n, d, m in lattice:
             for M in (1, 3):
                 out.append({"what": "sgpr-strategy", "settings": st, "n": n, "d": d, "m": m, "M": M})
+                if m == 1 or tier == "thorough":   # (m is replaced by n: one such cell per (n, d, M) in the quick tier)
+                    # the model evaluated at its own training inputs (residuals, calibration plots): x* is X itself
+                    out.append({"what": "sgpr-strategy", "settings": st, "n": n, "d": d, "m": n, "M": M, "xs": "train"})
     for st in settings_combos(["cg", "fpv", "fps", "nodetach"], tier):
         for n, d, m in lattice:
             for D in (1, 3, 5):
@@ -775,6 +778,8 @@ def run_sgpr_strategy(cell, g, fails, seed):
     st, n, d, m, M = cell["settings"], cell["n"], cell["d"], cell["m"], cell["M"]
     X, y, Z, s2, os_, const, build0 = make_sgpr(n, d, M, g)
     Xs = util.rand(g, m, d)
+    if cell.get("xs") == "train":
+        Xs, m = X.clone(), n
     ref = base_ref(d, d > 1, outputscale=os_)
     tol = tol_for(st)
     corr = "nocorr" not in st.split("+")
